@@ -18,6 +18,9 @@ type Wire struct {
 	FoLog   [][2]uint64      // failover log (newest first) answered to DCP_GET_FAILOVER_LOG and on a successful stream request
 	Rollback map[uint16]uint64 // vb -> seqno: the next stream request of vb is answered ROLLBACK(seqno) (once)
 	Reqs    [][5]uint64      // every DCP_STREAM_REQ received: vbUUID, start, end, snapshot start, snapshot end
+	// Burst, if set, is sent on a stream right behind the answer that accepts it: a snapshot marker [Burst[0], Burst[1]] and one
+	// mutation for every further seqno listed
+	Burst []uint64
 }
 
 func NewWire(numVb int) *Wire {
@@ -90,7 +93,18 @@ func (w *Wire) Handler() func(n *Node, c *memd.Conn, p *memd.Packet, send func(*
 			op, vb := p.Opaque, p.Vbucket
 			w.mu.Lock()
 			w.streams[vb] = func(q *memd.Packet) { q.Magic = memd.CmdMagicReq; q.Opaque = op; q.Vbucket = vb; send(q) }
+			burst := w.Burst
+			w.Burst = nil
 			w.mu.Unlock()
+			if len(burst) >= 2 {
+				ex := append(append(be64(burst[0]), be64(burst[1])...), 0, 0, 0, 1)
+				send(&memd.Packet{Magic: memd.CmdMagicReq, Command: memd.CmdDcpSnapshotMarker, Opaque: op, Vbucket: vb, Extras: ex})
+				for _, q := range burst[2:] {
+					mx := append(append(be64(q), be64(1)...), make([]byte, 15)...)
+					send(&memd.Packet{Magic: memd.CmdMagicReq, Command: memd.CmdDcpMutation, Opaque: op, Vbucket: vb, Extras: mx,
+						Key: []byte("k"), Value: []byte("v"), Cas: uint64(1800000000) * 1000000000})
+				}
+			}
 		case memd.CmdDcpCloseStream:
 			w.served(p.Command, "ok")
 			res(memd.StatusSuccess, nil, nil)
@@ -143,6 +157,7 @@ func (w *Wire) Script(vb uint16, folog [][2]uint64, rollback int64) {
 	w.mu.Lock()
 	w.FoLog = folog
 	w.Reqs = nil
+	w.Burst = nil
 	delete(w.Rollback, vb)
 	if rollback >= 0 {
 		w.Rollback[vb] = uint64(rollback)
@@ -155,3 +170,6 @@ func (w *Wire) Requests() [][5]uint64 {
 	defer w.mu.Unlock()
 	return append([][5]uint64{}, w.Reqs...)
 }
+
+// SetBurst: see Wire.Burst (consumed by the next accepted stream request).
+func (w *Wire) SetBurst(b []uint64) { w.mu.Lock(); w.Burst = b; w.mu.Unlock() }
